@@ -297,7 +297,8 @@ func (p *Parser) statement() (Statement, error) {
 		}
 
 		// try to parse for (ident[, ident] in expr)
-		if ident, ok := preExpr.(*ExprIdentifier); ok {
+		// ($ is parsed as an identifier, but it is not a name a loop can bind)
+		if ident, ok := preExpr.(*ExprIdentifier); ok && ident.token.Tag == Ident {
 			if p.current.Tag == In || p.current.Tag == Comma {
 				var indexIdent *ExprIdentifier
 				if p.current.Tag == Comma {
